@@ -307,3 +307,105 @@ func c20r3(rc *core.RC) {
 		rc.Unknown("strconv-integer-parses", token.NoPos, "found %d strconv.ParseInt/ParseUint calls", n)
 	}
 }
+
+// ---- C20.R4 Path.Unmarshal hands its destination only the list of all extracted parts ----
+
+// Path.Unmarshal decodes every extracted part and assigns the list of results to the destination
+// with decoder.AssignValue, whatever the number of parts. A shortcut that decodes a part straight
+// into the destination makes the outcome depend on how many parts the path happened to select in
+// this document. The destination parameter may therefore be used only inside the AssignValue call,
+// and a nil return must come after that call.
+func c20r4(rc *core.RC) {
+	p := rc.P
+	fd := p.Func("json", "Path.Unmarshal")
+	if fd == nil {
+		rc.Unknown("json.(*Path).Unmarshal", token.NoPos, "not found")
+		return
+	}
+	rc.Touch("json.(*Path).Unmarshal")
+	info := p.Info(fd)
+	// the destination: the parameter of interface type
+	var dst types.Object
+	for _, f := range fd.Type.Params.List {
+		if tv, ok := info.Types[f.Type]; ok {
+			if _, isIface := tv.Type.Underlying().(*types.Interface); isIface && len(f.Names) == 1 {
+				dst = info.Defs[f.Names[0]]
+			}
+		}
+	}
+	if dst == nil {
+		rc.Unknown("json.(*Path).Unmarshal/destination", fd.Pos(), "destination parameter not found")
+		return
+	}
+	var assign *ast.CallExpr
+	ast.Inspect(fd.Body, func(m ast.Node) bool {
+		if c, ok := m.(*ast.CallExpr); ok && core.CalleeName(info, c) == "decoder.AssignValue" {
+			assign = c
+		}
+		return true
+	})
+	if assign == nil {
+		rc.Bad("json.(*Path).Unmarshal/assigns-list", fd.Pos(), "decoder.AssignValue is not called: the destination does not receive the list of extracted parts")
+		return
+	}
+	bad := token.NoPos
+	ast.Inspect(fd.Body, func(m ast.Node) bool {
+		id, ok := m.(*ast.Ident)
+		if !ok || info.Uses[id] != dst {
+			return true
+		}
+		if !(assign.Pos() <= id.Pos() && id.End() <= assign.End()) && bad == token.NoPos {
+			bad = id.Pos()
+		}
+		return true
+	})
+	rc.Check(bad == token.NoPos, "json.(*Path).Unmarshal/destination-only-assigned-the-list", firstPos(bad, assign.Pos()), "the destination is used only as the target of decoder.AssignValue (a part decoded straight into it would make the result depend on the number of matches)")
+	cf := core.BuildCFG(fd.Body, info)
+	ab, _ := cf.BlockOf(assign)
+	ok := true
+	n := 0
+	for _, r := range cf.Returns() {
+		if len(r.Results) == 1 && core.IsNilIdent(info, r.Results[0]) {
+			n++
+			rb, _ := cf.BlockOf(r)
+			if ab == nil || rb == nil || !(cf.Dominates(ab, rb) || ab == rb) {
+				ok = false
+			}
+		}
+	}
+	rc.Check(ok && n > 0, "json.(*Path).Unmarshal/success-after-assign", assign.Pos(), "every `return nil` (%d) comes after the AssignValue call", n)
+	// the list holds a result for every part: the append sits in a range over the extracted parts
+	ranged := false
+	ast.Inspect(fd.Body, func(m ast.Node) bool {
+		rs, ok := m.(*ast.RangeStmt)
+		if !ok {
+			return true
+		}
+		hasAppend, leaves := false, false
+		ast.Inspect(rs.Body, func(x ast.Node) bool {
+			switch y := x.(type) {
+			case *ast.CallExpr:
+				if core.CalleeName(info, y) == "append" {
+					hasAppend = true
+				}
+			case *ast.BranchStmt:
+				if y.Tok == token.BREAK || y.Tok == token.CONTINUE {
+					leaves = true
+				}
+			}
+			return true
+		})
+		if hasAppend && !leaves {
+			ranged = true
+		}
+		return true
+	})
+	rc.Check(ranged, "json.(*Path).Unmarshal/every-part-decoded", fd.Pos(), "the results are appended in a loop over all extracted parts that has no break or continue")
+}
+
+func firstPos(a, b token.Pos) token.Pos {
+	if a != token.NoPos {
+		return a
+	}
+	return b
+}
